@@ -26,6 +26,18 @@ std::vector<Driver>& drivers()
     static std::vector<Driver> d;
     return d;
 }
+
+const std::vector<Driver>& consumer_drivers()
+{
+    // built on first use, i.e. after main() sorted the registry
+    static const std::vector<Driver> c = [] {
+        std::vector<Driver> v;
+        for(auto& d : drivers())
+            if(!d.producer_only) v.push_back(d);
+        return v;
+    }();
+    return c;
+}
 } // namespace wire
 
 namespace
@@ -88,7 +100,7 @@ int main(int argc, char** argv)
     std::sort(wire::drivers().begin(), wire::drivers().end(), [](const wire::Driver& a, const wire::Driver& b) { return std::string(a.shape->name) < b.shape->name; });
     if(argc >= 2 && std::string(argv[1]) == "info")
     {
-        for(auto& d : wire::drivers()) printf("DRIVER %s messages=%zu levels=%zu checked=%d\n", d.shape->name, d.shape->messages.size(), d.shape->levels.size(), d.checked ? 1 : 0);
+        for(auto& d : wire::drivers()) printf("DRIVER %s messages=%zu levels=%zu checked=%d producer_only=%d\n", d.shape->name, d.shape->messages.size(), d.shape->levels.size(), d.checked ? 1 : 0, d.producer_only ? 1 : 0);
         return 0;
     }
     if(argc >= 3 && std::string(argv[1]) == "dump")
